@@ -2,6 +2,7 @@ import RedisVerif.Driver.Codec
 import RedisVerif.Props.C03
 import RedisVerif.Model.ShardsClock
 import RedisVerif.Model.Shards7
+import RedisVerif.Model.Script7
 import RedisVerif.Driver.C01
 
 /-
@@ -16,6 +17,8 @@ import RedisVerif.Driver.C01
     M7NEW <N> <n> (<key> <route>)*                  → ok     the sharding model over the M7 REFERENCE executor
           (`Model/Shards7.lean`: every command of `Model/Redis.lean`, per-shard sweeps = set_time)
     M7 <now-ms> <OP args… in the C01 line syntax>   → reply in the C01 reply syntax (KEYS sorted)
+    M7S <now-ms> <id> <nk> <key>* <na> <arg>* <nf> <field>*   → reply of script <id> of `Redis.scriptCatalog`
+          (EVAL: ONE message to the shard of KEYS[1], the whole script runs there: `M7.execScript7`)
     M7EVICT <now-ms>                                → evict    (the TTL tick: every shard adopts the time)
     M7DUMP <now-ms>                                 → visible keyspace (C01 dump syntax) | keys=[what KEYS * lists]
 -/
@@ -224,6 +227,18 @@ def parseM7New : P (Nat × List (Nat × Nat)) := do
   let tbl ← repeatP m (do let k ← strKey; let r ← nat; pure (k, r))
   pure (n, tbl)
 
+def parseM7S : P (Nat × Nat × List Nat × List Bytes × List Nat) := do
+  expect "M7S"
+  let now ← nat
+  let id ← nat
+  let nk ← nat
+  let ks ← repeatP nk strKey
+  let na ← nat
+  let as ← repeatP na bytesTok
+  let nf ← nat
+  let fs ← repeatP nf strKey
+  pure (now, id, ks, as, fs)
+
 def parseM7 : P (Nat × Redis.Cmd) := do
   expect "M7"
   let now ← nat
@@ -260,6 +275,15 @@ def step (d : DState) (line : String) : DState × String :=
       let home : Redis.State := (dedupSorted (sortNat (d.st7.flatMap NMap.keys))).filterMap (fun k =>
         (NMap.get (shard d.st7 (d.R.bytes k)) k).map (fun e => (k, e)))
       (d, C01.showDump home t ++ " | keys=" ++ "[" ++ ",".intercalate (all.map showKey) ++ "]")
+    | none => (d, "bad-op")
+  | "M7S" :: _ =>
+    match runP parseM7S line with
+    | some (now, id, ks, as, fs) =>
+      match Redis.scriptCatalog id ks as fs, ks with
+      | some p, k :: _ =>
+        let r := M7.execScript7 d.R now d.st7 k p
+        ({ d with st7 := r.1 }, showReply7 (.get k) r.2)
+      | _, _ => (d, "bad-op")
     | none => (d, "bad-op")
   | "M7" :: _ =>
     match runP parseM7 line with
